@@ -7,5 +7,5 @@ Extraction "c18_model.ml" extract_anchor
   stub_package stub_upload boot_read_len table_src stub_remote_run stub_remote_spec stream_of
   render_options eval_options opt_ok remote_options
   client_startup writes_before_sync writes_after_sync server_main_start stdout_of
-  client_sync server_sync ping_frame
+  client_sync server_sync ping_frame hs_spec
   pycmd sh_words ps_words sh_quote.
